@@ -1,11 +1,13 @@
 (* C32 — JSON values round-trip and path functions obey their laws: the quoting mechanism
    (internal/strings Quote / Unquote / UnquoteBytes = JSON_QUOTE / JSON_UNQUOTE).
    Only statements, each closed by [exact], each followed by Print Assumptions.
-   Strings are lists of bytes.  The document model, comparison and path functions are NOT modelled (see
-   props/C32.json "partial"); their laws are checked on the implementation only. *)
-From Coq Require Import List NArith.
+   Strings are lists of bytes.  The second half states the document laws on the model Codec/C32Json.v (documents of
+   null / booleans / exact integers / strings / arrays / objects; paths as leg lists), which is tied to the engine's
+   printer, CompareJSON and path functions by correspondence (Corr/C32.v). *)
+From Coq Require Import List NArith ZArith.
 Import ListNotations.
 From GMS Require Import Codec.Charset Codec.JsonQuote Codec.JsonQuoteProofs.
+From GMS Require Import Codec.C32Json Codec.C32JsonProofs Codec.C32JsonCompare Codec.C32JsonParse.
 Open Scope N_scope.
 
 (* JSON_UNQUOTE(JSON_QUOTE(s)) = s for every valid UTF-8 string s, of any length and content *)
@@ -80,3 +82,66 @@ Example C32_nonvacuous :
   unquote [92; 117; 48; 48; 122; 122] = RErr 2.
 Proof. exact quote_examples. Qed.
 Print Assumptions C32_nonvacuous.
+
+
+(* ====================== JSON documents (model: Codec/C32Json.v) ====================== *)
+
+(* text round trip: parsing the printed form of ANY document gives its canonical form (objects sorted by the print
+   order "shorter key first, then bytewise", first binding of a key wins) *)
+Theorem C32_json_parse_print : forall j, parse (print j) = Some (canon j).
+Proof. exact parse_print. Qed.
+Print Assumptions C32_json_parse_print.
+
+Theorem C32_canon_idempotent_and_key_sorted : forall j, canon (canon j) = canon j /\ canonical (canon j).
+Proof. exact (fun j => conj (canon_idempotent j) (canon_canonical j)). Qed.
+Print Assumptions C32_canon_idempotent_and_key_sorted.
+
+(* CompareJSON is a total order on documents, and two documents compare equal exactly when their forms with
+   bytewise-sorted keys (the form CompareJSON itself builds) are equal *)
+Theorem C32_compare_json_total_order :
+  (forall a, compare_json a a = Eq) /\
+  (forall a b, compare_json b a = CompOpp (compare_json a b)) /\
+  (forall a b c, compare_json a b <> Gt -> compare_json b c <> Gt -> compare_json a c <> Gt) /\
+  (forall a b, compare_json a b = Eq <-> sort_bytewise a = sort_bytewise b).
+Proof. exact (conj compare_json_refl (conj compare_json_total (conj compare_json_trans compare_json_eq_iff))). Qed.
+Print Assumptions C32_compare_json_total_order.
+
+(* JSON_EXTRACT(JSON_SET(d, p, v), p) = v when the target exists ... *)
+Theorem C32_extract_set : forall v p d old, lookup p d = Some old ->
+  lookup p (fst (upd SET p d v)) = Some v /\ snd (upd SET p d v) = true.
+Proof. exact set_then_lookup. Qed.
+Print Assumptions C32_extract_set.
+
+(* ... and when p names a (new or existing) member of an existing object *)
+Theorem C32_extract_set_member : forall v k p d m, lookup p d = Some (JObj m) ->
+  lookup (p ++ [LKey k]) (fst (upd SET (p ++ [LKey k]) d v)) = Some v /\ snd (upd SET (p ++ [LKey k]) d v) = true.
+Proof. exact set_member_then_lookup. Qed.
+Print Assumptions C32_extract_set_member.
+
+(* JSON_REMOVE of an existing member (holding anything, JSON null included) makes JSON_CONTAINS_PATH false *)
+Theorem C32_remove_then_not_contains : forall v k p d old, lookup (p ++ [LKey k]) d = Some old ->
+  contains_path (p ++ [LKey k]) (fst (upd REMOVE (p ++ [LKey k]) d v)) = false /\
+  snd (upd REMOVE (p ++ [LKey k]) d v) = true.
+Proof. exact remove_then_not_contains. Qed.
+Print Assumptions C32_remove_then_not_contains.
+
+(* JSON_ARRAY_APPEND adds exactly one element to the array at the target ... *)
+Theorem C32_array_append_adds_one : forall v p d l, lookup p d = Some (JArr l) ->
+  exists l', lookup p (fst (upd APPEND p d v)) = Some (JArr l') /\ l' = l ++ [v] /\ length l' = S (length l).
+Proof. exact append_adds_one. Qed.
+Print Assumptions C32_array_append_adds_one.
+
+(* ... and every path that diverges from the target is unchanged (also for JSON_SET / INSERT / REPLACE) *)
+Theorem C32_disjoint_paths_unchanged : forall md v, md <> REMOVE -> forall p q d t,
+  lookup p d = Some t -> diverge p q -> lookup q (fst (upd md p d v)) = lookup q d.
+Proof. exact frame. Qed.
+Print Assumptions C32_disjoint_paths_unchanged.
+
+(* non-vacuity: a document whose keys need sorting, with an escaped string and a negative integer; its text; a parse *)
+Example C32_json_nonvacuous :
+  print (JObj [([98; 98], JInt (-12)%Z); ([97], JArr [JStr [34; 233]; JNull; JBool true]); ([98; 97], JObj [])]) =
+    [123; 34;97;34; 58;32; 91; 34;92;34;233;34; 44;32; 110;117;108;108; 44;32; 116;114;117;101; 93; 44;32;
+     34;98;97;34; 58;32; 123;125; 44;32; 34;98;98;34; 58;32; 45;49;50; 125] /\
+  parse [123; 34;98;34; 58;32; 49; 44;32; 34;97;34; 58;32; 91;93; 125] = Some (JObj [([97], JArr []); ([98], JInt 1)]).
+Proof. exact parse_print_example. Qed.
+Print Assumptions C32_json_nonvacuous.
